@@ -1,5 +1,5 @@
 """C11 -- every modifier changes only its own component."""
-from .common import run_model, run_progs
+from .common import run_model, run_progs, run_value_machine
 
 FINISH = dict(rule="R1 MC_Ports (authority accessors of Level I); R3 random programs over the authority grid x all modifiers x "
                    "hostile arguments on both back ends; TLC evaluates C11.frame.<modifier> on (receiver, argument, result)")
@@ -9,6 +9,7 @@ FIELDS = ["str", "val", "raw_user", "raw_password", "raw_host", "host_subcompone
 
 def run(out, sc, tier, seed):
     run_model(out, sc, "MC_Ports", ["Inv_PortText"], label="MC_Ports[authority split]")
+    run_value_machine(out, sc, "C11", tier, fields=FIELDS)
     n = 12000 if tier == "quick" else 300000
     run_progs(out, sc, "C11", {"gen": "progs", "n": n, "seed": seed, "surrogate_p": 0.02, "fields": FIELDS,
                                "build_p": 0.15, "depths": [1, 2, 2, 3]}, "progs")
